@@ -184,7 +184,7 @@ Example c16_ansi_line :
   end.
 Proof. vm_compute. repeat split. Qed.
 (* a section output at width 30 with a section below: the frame wraps inside its own section, the section below stays *)
-Definition demo_sec_setup := srun true 30 [] demo_f [SCreate; SCreate; SWrite 1 [98;101;108;111;119]%N true].
+Definition demo_sec_setup := srun true 30 [] demo_f [SCreate 0; SCreate 0; SWrite 1 [98;101;108;111;119]%N true].
 Definition demo_sec : pbar :=
   match demo_sec_setup with
   | Ok (st, f, _) => pb_new true false true 30 f st 0 10 10 0 1 1 1 (Some 2) [62]%N (Some f_msg) (Some m_long) 1000
